@@ -23,6 +23,12 @@ af, conf = setup()
 logging.disable(logging.CRITICAL)
 
 import c07_classes
+
+# prior configuration of the one configured class, in <cwd>/config/priors (cwd is the scratch directory)
+os.makedirs(os.path.join(os.getcwd(), "config", "priors"), exist_ok=True)
+with open(os.path.join(os.getcwd(), "config", "priors", "c07_classes.yaml"), "w") as _f:
+    _f.write(c07_classes.PRIOR_CONFIG)
+import numpy as np
 from autofit.mapper.identifier import Identifier
 from autofit.mapper.model_object import ModelObject
 from autofit.aggregator.search_output import SearchOutput
@@ -88,6 +94,22 @@ def make_pool(specs, order, waste):
     return [created[i] for i in range(len(specs))]
 
 
+def numpy_value(e):
+    k = e["dtype"]
+    if k == "complex":
+        return complex(e["v"], 1.0)
+    return getattr(np, k)(e["v"])
+
+
+def describe(v):
+    """module.type:python-value (independent of numpy's repr)"""
+    try:
+        shown = repr(v.item()) if hasattr(v, "item") else repr(v)
+    except Exception:  # noqa
+        shown = "?"
+    return clean("%s.%s:%s" % (type(v).__module__, type(v).__name__, shown))
+
+
 def literal(e):
     return repr(unhex(e["v"]))
 
@@ -108,6 +130,8 @@ def build(e, pool, opts):
         return str(e["v"])
     if t == "none":
         return None
+    if t == "np":
+        return numpy_value(e)
     if t == "binop":
         names = opts.get("rename", {})
         loc = {}
@@ -129,8 +153,8 @@ def build(e, pool, opts):
         return loc.pop("res__")
     if t == "tuple":
         raise ValueError("tuple nodes are built by their model")
-    if t == "inst":
-        return c07_classes.CLASSES[e["cls"]](**{k: build(v, pool, opts) for k, v in e["attrs"]})
+    if t == "inst":      # e["args"]: constructor keywords (e["attrs"] describes the resulting __dict__)
+        return c07_classes.CLASSES[e["cls"]](**{k: build(v, pool, opts) for k, v in e.get("args", e["attrs"])})
     if t == "model":
         cls = c07_classes.CLASSES[e["cls"]]
         kinds = dict(c07_classes.SIGNATURES[e["cls"]])
@@ -184,7 +208,12 @@ def clean(s):
     return "".join(c if 32 <= ord(c) < 127 else "?" for c in s)[:200]
 
 
+FACTS = {}
+
+
 def abs_obj(v, ids, stack=(), private_depth=None):
+    if FACTS.get("numpy_scalars_unwrapped") and type(v).__module__ == "numpy" and getattr(v, "ndim", 1) == 0 and hasattr(v, "item"):
+        v = v.item()
     if private_depth is not None:
         if private_depth <= 0:
             return ["none"]
@@ -244,12 +273,18 @@ def abs_obj(v, ids, stack=(), private_depth=None):
         return ["s", clean(v)]
     if isinstance(v, int):
         return ["i", int(v)]
+    if v is None:
+        return ["none"]
     from collections.abc import Iterable
     if isinstance(v, Iterable):
         if private_depth is not None and not isinstance(v, (list, tuple)):
-            return ["none"]
-        return ["seq", [abs_obj(x, ids, stack, private_depth) for x in v]]
-    return ["none"]
+            return ["other", describe(type(v)), False]
+        try:
+            it = iter(v)
+        except TypeError:
+            return ["other", describe(v), True]          # e.g. a 0-d array: iteration raises
+        return ["seq", [abs_obj(x, ids, stack, private_depth) for x in it]]
+    return ["other", describe(v), False]
 
 
 def walk_observables(value):
@@ -295,12 +330,12 @@ def run_fit(spec, want_abs):
             w2 = walk_observables(model2)
             if "raised" in w2:          # e.g. an attribute silently left at a ConfigException placeholder
                 out["model_raised"] = w2["raised"]
-                out["raised"], out["msg"], out["stage"] = w2["raised"], w2.get("msg"), "reload"
+                out["raised"], out["msg"], out["stage"] = w2["raised"], w2.get("msg"), "reload:walk-of-reloaded-model"
             elif want_abs:
                 out["abs_model"] = abs_obj(model2, {})
         except BaseException as e:  # noqa
             out["model_raised"] = exc_name(e)
-            out["raised"], out["msg"], out["stage"] = exc_name(e), str(e)[:200], "reload"
+            out["raised"], out["msg"], out["stage"] = exc_name(e), str(e)[:200], "reload:serialise-or-parse"
         try:
             search2 = from_dict(json.loads(json.dumps(to_dict(search))))
             if want_abs:
@@ -331,10 +366,15 @@ def run_fit(spec, want_abs):
                     # (pre_fit_output) are still the fit's own files, if they exist
                     files = Path(search.paths.output_path) / "files"
                     if not ((files / "model.json").exists() and (files / "search.json").exists()):
-                        if isinstance(e, TimeoutError):
-                            out["skipped"] = "timeout"
-                            return out
-                        raise
+                        try:        # did the fit fail before its own files could be written (pre_fit_output)?
+                            probe = make_search(dict(sspec, name=sspec["name"] + "_probe"), opts)
+                            probe.paths.model = model
+                            probe.paths.unique_tag = probe.unique_tag
+                            probe.paths.save_all()
+                        except BaseException:  # noqa
+                            raise e            # writing the files itself fails: that is an observation
+                        out["skipped"] = "timeout" if isinstance(e, TimeoutError) else "sampler:" + exc_name(e)
+                        return out
                     out["fit_error"] = exc_name(e)
                 finally:
                     signal.alarm(0)
@@ -350,6 +390,10 @@ def run_fit(spec, want_abs):
             out["msg"] = str(e)[:200]
             out["stage"] = "write"
             return out
+        if opts.get("export"):
+            files = Path(search.paths.output_path) / "files"
+            out["export"] = {"model.json": (files / "model.json").read_text(), "search.json": (files / "search.json").read_text(),
+                             "metadata": (Path(search.paths.output_path) / "metadata").read_text()}
         try:
             so = SearchOutput(Path(search.paths.output_path))
             out["identifier"] = so.id
@@ -359,6 +403,21 @@ def run_fit(spec, want_abs):
             out["raised"] = exc_name(e)
             out["msg"] = str(e)[:200]
             out["stage"] = "read"
+        return out
+    if route == "refit":
+        # one search object used for two fits in a row: the identifier must follow the model / tag set last
+        spec2 = spec["then"]
+        pool2 = make_pool(spec2["pool"], list(range(len(spec2["pool"]))), 0)
+        model2 = build(spec2["model"], pool2, opts)
+        steps = []
+        for mdl, tag in ((model, spec.get("tag")), (model2, spec2.get("tag")), (model, spec.get("tag"))):
+            search.unique_tag = tag
+            search.paths.model = mdl
+            search.paths.unique_tag = tag
+            fresh = walk_observables([search, mdl] + ([tag] if tag is not None else []))
+            steps.append({"paths_identifier": search.paths.identifier, "fresh": fresh.get("identifier"),
+                          "folder": Path(search.paths.output_path).name})
+        out["steps"] = steps
         return out
     # direct / deepcopy
     lst = [search, model] + ([spec["tag"]] if spec.get("tag") is not None else [])
@@ -409,6 +468,18 @@ def build_value(e):
         return o
     if t == "prior":
         return make_prior(e[1])
+    if t == "np":
+        return numpy_value({"dtype": e[1], "v": e[2]})
+    if t == "np0d":
+        return np.array(float(e[1]))
+    if t == "nparr":
+        return np.array([float(x) for x in e[1]])
+    if t == "set":
+        return set(str(x) for x in e[1])
+    if t == "fset":
+        return frozenset(str(x) for x in e[1])
+    if t == "dictsub":
+        return c07_classes.DictSub([(k, build_value(x)) for k, x in e[1]], note=float(e[2]))
     if t == "gridsearch":
         return af.SearchGridSearch(search=af.m.MockSearch(name="g"), number_of_steps=int(e[1]), number_of_cores=int(e[2]))
     raise ValueError(t)
@@ -427,11 +498,24 @@ def run_case(c):
         return out
     if k == "round":
         return walk_observables(unhex(c["v"]))
+    if k == "readback":      # files written by ANOTHER process are read here
+        d = Path(os.environ["VERIF_SCRATCH"]) / ("readback_%d" % COUNTER[0])
+        COUNTER[0] += 1
+        (d / "files").mkdir(parents=True)
+        (d / "files" / "model.json").write_text(c["export"]["model.json"])
+        (d / "files" / "search.json").write_text(c["export"]["search.json"])
+        (d / "metadata").write_text(c["export"]["metadata"])
+        try:
+            return {"identifier": SearchOutput(d).id}
+        except BaseException as e:  # noqa
+            return {"raised": exc_name(e), "msg": str(e)[:200]}
     raise ValueError(k)
 
 
 def main():
-    cases = json.load(open(sys.argv[1]))["cases"]
+    payload = json.load(open(sys.argv[1]))
+    cases = payload["cases"]
+    FACTS.update(payload.get("facts", {}))
     out = []
     for i, c in enumerate(cases):
         try:
